@@ -8,9 +8,16 @@ use crate::util::*;
 use rcgen::*;
 use serde_json::{json, Value};
 
+thread_local! {
+	/// "persistent": the signer refuses every request of the attempt; "transient": only the very next request
+	static MODE: std::cell::RefCell<String> = std::cell::RefCell::new("persistent".to_string());
+}
+
 fn set_fail(k: &LiveKey, on: bool, err: &str) {
 	let mut g = k.log.as_ref().unwrap().lock().unwrap();
-	g.fail_all = on;
+	let transient = MODE.with(|m| m.borrow().as_str() == "transient");
+	g.fail_all = on && !transient;
+	g.fail_on = if on && transient { vec![g.calls + 1] } else { vec![] };
 	g.fail_err = err.to_string();
 	g.messages.clear();
 }
@@ -23,6 +30,7 @@ pub fn run_session(case: &Value, idx: usize, algs: [&str; 3], out: &mut Out, rng
 	let case_id = case.get("_id").and_then(|v| v.as_str()).map(|s| s.to_string()).unwrap_or_else(|| format!("faults/{}", idx));
 	let fails: Vec<u64> = case["fails"].as_array().unwrap().iter().map(|x| x.as_u64().unwrap()).collect();
 	let err = sval(case, "err");
+	MODE.with(|m| *m.borrow_mut() = case.get("mode").and_then(|v| v.as_str()).unwrap_or("persistent").to_string());
 	let kr = match live_key("kR", algs[0], "remote", rng) {
 		Ok(k) => k,
 		Err(_) => return,
